@@ -95,14 +95,15 @@ Section C18.
   Proof. exact (unset_defaults_eq_de_main snake V default_of call_fn flat_none). Qed.
 
   (* conversely a member serde can do without is either a builder default with the same value
-     or a Required property of Option type (serde is lenient there, the builder is not: the
+     or a Required property of Option type, possibly behind one Box (serde is lenient there, the builder is not: the
      schema lists it in `required`) *)
   Theorem C18_de_defaults_eq_unset : forall T n ps fs f v,
     emit_fields snake T n ps = Done fs -> In f fs ->
     has_flatten (f_attrs f) = false ->
     de_missing T f = Some v ->
     init_slot f = SOk v \/
-    (f_dfun f = DFNone /\ (exists t, get_det T (f_ty f) = Some (DOption t)) /\ v = default_of (f_ty f)).
+    (f_dfun f = DFNone /\ (exists t, option_map (unboxed T) (get_det T (f_ty f)) = Some (DOption t)) /\
+     v = default_of (f_ty f)).
   Proof. exact (de_defaults_eq_unset_main snake V default_of call_fn flat_none). Qed.
 
   (* … hence in a successfully built struct every unset non-flattened field has the value
